@@ -187,6 +187,14 @@ func (tx *Transaction) Collection(idx variables.RuleVariable) collection.Collect
 		return tx.variables.reqbodyProcessorErrorMsg
 	case variables.ReqbodyProcessor:
 		return tx.variables.reqbodyProcessor
+	case variables.ResBodyError:
+		return tx.variables.resBodyError
+	case variables.ResBodyErrorMsg:
+		return tx.variables.resBodyErrorMsg
+	case variables.ResBodyProcessorError:
+		return tx.variables.resBodyProcessorError
+	case variables.ResBodyProcessorErrorMsg:
+		return tx.variables.resBodyProcessorErrorMsg
 	case variables.RequestBasename:
 		return tx.variables.requestBasename
 	case variables.RequestBody:
@@ -2402,6 +2410,18 @@ func (v *TransactionVariables) All(f func(v variables.RuleVariable, col collecti
 		return
 	}
 	if !f(variables.ReqbodyProcessorErrorMsg, v.reqbodyProcessorErrorMsg) {
+		return
+	}
+	if !f(variables.ResBodyError, v.resBodyError) {
+		return
+	}
+	if !f(variables.ResBodyErrorMsg, v.resBodyErrorMsg) {
+		return
+	}
+	if !f(variables.ResBodyProcessorError, v.resBodyProcessorError) {
+		return
+	}
+	if !f(variables.ResBodyProcessorErrorMsg, v.resBodyProcessorErrorMsg) {
 		return
 	}
 	if !f(variables.RequestBasename, v.requestBasename) {
